@@ -229,8 +229,15 @@ class EngineSim(TreeSim):
         self.bkt = None
         self.completed = False
 
+    light = False  # light runs: no taps, no model (twin-run comparisons only need the histories)
+
     def tindex(self, now):
         return self._didx.get(now, -2)
+
+    def observe(self):
+        if self.light:
+            return True
+        return TreeSim.observe(self)
 
     def algos_for(self, path):
         n = self.plan["tree"]
@@ -269,7 +276,9 @@ class EngineSim(TreeSim):
         fr = self.feed.frames(synthetic=False)
         data = fr["prices"]
         add = {k: v for k, v in fr.items() if k != "prices"}
-        add.update(self.extra_data())
+        xd = self.extra_data()
+        self.frames_by_name = xd
+        add.update(xd)
         strategy = trees.build(bt, self.plan["tree"], algos_for=self.algos_for)
         cfg = self.cfg
         self.commfn = commod.Counting(cfg["comm"], self) if cfg.get("comm") else None
@@ -281,6 +290,9 @@ class EngineSim(TreeSim):
         self._didx = {d: i - 1 for i, d in enumerate(self.dates)}
         self.ti = 0
         self.strats = trees.strategies(self.plan["tree"])
+        if self.light:
+            taps.set_current(None)
+            return
         if cfg.get("obs_eod"):
             self.tick_hook = self.end_of_date
         taps.set_current(self)
@@ -438,3 +450,198 @@ def check_dup_columns(bt, plan):
     except Exception as e:  # noqa
         return "duplicate" in str(e)
     return False
+
+
+def run_light(bt, plan, seed=0):
+    """run the real Backtest without model/taps; returns (sim, exception or None)"""
+    from . import rng as rngmod
+
+    taps.install(bt)
+    sim = EngineSim(bt, plan, set())
+    sim.light = True
+    rngmod.pin_globals(seed)
+    exc = None
+    try:
+        sim.setup()
+        sim.bkt.run()
+        sim.completed = True
+    except Exception as e:  # noqa
+        exc = e
+    finally:
+        taps.set_current(None)
+    return sim, exc
+
+
+def histories(root, upto=None):
+    """{full_name: {column: ndarray}} of every node's recorded history, rows <= upto"""
+    out = {}
+    for n in root.members:
+        df = n.data
+        if upto is not None:
+            df = df.loc[:upto]
+        cols = {}
+        for c in df.columns:
+            if c == "price" and not hasattr(n, "capital"):
+                continue  # a lazily created security's own price column is input data, not a result
+            cols[c] = df[c].to_numpy(dtype=float, na_value=float("nan"))
+        out[n.full_name] = cols
+    return out
+
+
+def diff_histories(a, b):
+    """first difference between two history dicts; a node absent from one side counts as all-zero rows"""
+    import numpy as np
+
+    for name in sorted(set(a) | set(b)):
+        ca, cb = a.get(name), b.get(name)
+        if ca is None or cb is None:
+            present = ca if ca is not None else cb
+            for c, arr in present.items():
+                z = arr[~np.isnan(arr)]
+                if np.any(z != 0):
+                    return "%s exists in one run only and has non-zero %s" % (name, c)
+            continue
+        for c in sorted(set(ca) | set(cb)):
+            x, y = ca.get(c), cb.get(c)
+            if x is None or y is None:
+                return "%s column %s in one run only" % (name, c)
+            if x.shape != y.shape:
+                return "%s.%s length %d vs %d" % (name, c, len(x), len(y))
+            if x.tobytes() != y.tobytes():
+                bad = [i for i in range(len(x)) if not (x[i] == y[i] or (x[i] != x[i] and y[i] != y[i]))]
+                if bad:
+                    i = bad[0]
+                    return "%s.%s row %d: %r vs %r" % (name, c, i, x[i], y[i])
+    return None
+
+
+# =========================================================================================
+# the "all stock algos" family (C04 causality, C11 isolation, C10 robustness)
+# =========================================================================================
+def _frame(cols, data, rows=None, dtype="float"):
+    d = {"kind": "frame", "cols": list(cols), "data": data}
+    if rows is not None:
+        d["rows"] = rows
+    if dtype != "float":
+        d["dtype"] = dtype
+    return d
+
+
+def gen_all_algos_plan(rng, tier="quick", stateful=False, random_algos=True):
+    """stacks drawn from *every* stock scheduling / selection / statistic / weighting / rebalancing algo,
+    with the signal / target-weight / stat frames they need"""
+    big = tier == "thorough"
+    ndates = rng.randint(16, 40 if big else 28)
+    ntick = rng.randint(3, 5)
+    fspec, fired = gen_feed(rng, ndates, ntick, style=rng.choice(["bday", "bday", "gaps", "intraday"]), faults={"late_listing": 0.15}, spread_p=0.4)
+    dates, tickers = fspec["dates"], fspec["tickers"]
+    gap = max_gap_days(dates)
+    extra = {}
+    capital = rng.choice([1e5, 1e6])
+
+    def stack(names, nested_ok=True):
+        st = []
+        warm = 14
+        # scheduling
+        r = rng.random()
+        if r < 0.55:
+            st.append(sched_spec(rng, dates))
+        elif r < 0.8 or not stateful:
+            st.append({"a": "RunAfterDate", "date": dates[rng.randint(0, warm)]})
+        else:
+            st.append(stateful_sched_spec(rng, dates))
+        if rng.random() < 0.2:
+            st.append({"a": "Not", "algo": {"a": "RunOnDate", "dates": [dates[rng.randrange(len(dates))]]}})
+        # selection
+        sk = rng.choice(["SelectAll", "SelectThese", "SelectHasData", "SelectMomentum", "SelectN_stat", "SelectWhere", "SelectRandomly" if random_algos else "SelectAll", "SelectRegex", "SelectTypes", "SetStat"])
+        if sk == "SelectAll":
+            st.append({"a": "SelectAll"})
+        elif sk == "SelectThese":
+            st.append({"a": "SelectThese", "args": [sorted(rng.sample(names, rng.randint(1, len(names))))]})
+        elif sk == "SelectHasData":
+            st.append({"a": "SelectHasData", "kw": {"lookback": {"days": gap * rng.randint(1, 5)}, "min_count": rng.randint(1, 3)}})
+        elif sk == "SelectMomentum":
+            st += [{"a": "SelectAll"}, {"a": "SelectMomentum", "args": [rng.randint(1, len(names))], "kw": {"lookback": {"days": gap * rng.randint(1, 4) + rng.randint(0, 3)}, "lag": {"days": rng.choice([0, 0, 1, 2])}, "sort_descending": rng.random() < 0.7, "all_or_none": rng.random() < 0.2}}]
+        elif sk == "SelectN_stat":
+            st += [{"a": "SelectAll"}, {"a": "StatTotalReturn", "kw": {"lookback": {"days": gap * rng.randint(1, 4) + 1}, "lag": {"days": rng.choice([0, 1])}}}, {"a": "SelectN", "args": [rng.choice([1, 2, 0.5])], "kw": {"sort_descending": rng.random() < 0.5, "filter_selected": rng.random() < 0.5}}]
+        elif sk == "SelectWhere":
+            nm = "sig%d" % len(extra)
+            extra[nm] = _frame(names, [[rng.random() < 0.6 for _ in names] for _ in dates], dtype="bool")
+            st.append({"a": "SelectWhere", "args": [nm]})
+        elif sk == "SelectRandomly":
+            st += [{"a": "SelectAll"}, {"a": "SelectRandomly", "kw": {"n": rng.randint(1, len(names))}}]
+        elif sk == "SelectRegex":
+            st += [{"a": "SelectAll"}, {"a": "SelectRegex", "args": ["[%s]" % "".join(rng.sample(names, rng.randint(1, len(names))))]}]
+        elif sk == "SelectTypes":
+            st += [{"a": "SelectAll"}]
+        elif sk == "SetStat":
+            nm = "stat%d" % len(extra)
+            extra[nm] = _frame(names, [[round(rng.gauss(0, 1), 4) for _ in names] for _ in dates])
+            st += [{"a": "SelectAll"}, {"a": "SetStat", "args": [nm], "kw": {"lag": {"days": rng.choice([0, 0, 1])}}}, {"a": "SelectN", "args": [rng.randint(1, len(names))], "kw": {"filter_selected": True}}]
+        if rng.random() < 0.2:
+            st.append({"a": "Require", "pred": "nonempty", "item": "selected"})
+        # weighting
+        wk = rng.choice(["WeighEqually", "WeighEqually", "WeighSpecified", "WeighTarget", "WeighInvVol", "WeighERC", "WeighMeanVar", "WeighRandomly" if random_algos else "WeighEqually"])
+        risky = wk in ("WeighInvVol", "WeighERC", "WeighMeanVar")
+        if risky:
+            st.insert(0, {"a": "RunAfterDate", "date": dates[warm]})
+            st = [a for a in st if a.get("a") not in ("SelectWhere", "SelectRandomly", "SelectMomentum", "StatTotalReturn", "SelectN", "SetStat", "SelectRegex", "SelectThese", "SelectAll", "SelectHasData", "Require")]
+            st.append({"a": "SelectHasData", "kw": {"lookback": {"days": 4000}, "min_count": warm}})
+            st.append({"a": wk, "kw": {"lookback": {"days": gap * 10 + rng.randint(0, 6)}, "lag": {"days": rng.choice([0, 0, 1])}}})
+        elif wk == "WeighSpecified":
+            sel = rng.sample(names, rng.randint(1, len(names)))
+            ws = [rng.random() for _ in sel]
+            tot = sum(ws) / rng.choice([1.0, 0.8])
+            st.append({"a": "WeighSpecified", "weights": {t: round(w / tot, 4) for t, w in zip(sel, ws)}})
+        elif wk == "WeighTarget":
+            nm = "tw%d" % len(extra)
+            rows = sorted(rng.sample(dates, rng.randint(2, len(dates))))
+            data = []
+            for _ in rows:
+                ws = [rng.random() if rng.random() < 0.8 else None for _ in names]
+                tot = sum(w for w in ws if w is not None) or 1.0
+                data.append([None if w is None else round(w / tot * rng.choice([1.0, 0.7]), 4) for w in ws])
+            extra[nm] = _frame(names, data, rows=rows)
+            st.append({"a": "WeighTarget", "args": [nm]})
+        else:
+            st.append({"a": wk})
+        r = rng.random()
+        if r < 0.12 and wk not in ("WeighSpecified", "WeighTarget"):
+            st.append({"a": "LimitWeights", "kw": {"limit": rng.choice([0.4, 0.6, 0.8])}})
+        elif r < 0.25:
+            st.append({"a": "LimitDeltas", "kw": {"limit": rng.choice([0.05, 0.2, 0.5])}})
+        elif r < 0.32:
+            st.append({"a": "ScaleWeights", "args": [rng.choice([0.5, 0.9])]})
+        elif r < 0.42 and stateful:
+            st.insert(0, {"a": "RunAfterDate", "date": dates[warm]})
+            st.append({"a": "TargetVol", "args": [rng.choice([0.1, 0.2])], "kw": {"lookback": {"days": gap * 10}, "lag": {"days": rng.choice([0, 1])}}})
+        if rng.random() < 0.15:
+            nmw = "ptw%d" % len(extra)
+            extra[nmw] = _frame(names, [[round(1.0 / len(names), 4) for _ in names] for _ in dates])
+            st.append({"a": "Or", "algos": [{"a": "RunOnDate", "dates": [dates[0]]}, {"a": "PTE_Rebalance", "args": [rng.choice([0.01, 0.05]), "@" + nmw], "kw": {"lookback": {"days": gap * 8}, "lag": {"days": rng.choice([0, 1])}}}]})
+        if rng.random() < 0.1:
+            st.append({"a": "RunIfOutOfBounds", "args": [rng.choice([0.05, 0.2])]})
+        if rng.random() < 0.1:
+            st.append({"a": "CloseDead"})
+        if rng.random() < 0.12:
+            st.append({"a": "CapitalFlow", "args": [round(rng.choice([1, -1]) * rng.choice([0.01, 0.05]) * capital, 2)]})
+        if rng.random() < 0.15 and stateful:
+            st.append({"a": "run_always", "algo": {"a": "RebalanceOverTime", "kw": {"n": rng.randint(2, 5)}}})
+        else:
+            st.append({"a": "Rebalance"})
+        return st
+
+    root = {"k": "S", "name": "top", "cls": "Strategy", "fi": False, "how": "list", "children": []}
+    if rng.random() < 0.3:
+        for i in range(rng.randint(1, 2)):
+            sub = {"k": "S", "name": "sub%d" % i, "cls": "Strategy", "fi": False, "how": "list", "children": []}
+            sub["algos"] = stack(tickers)
+            root["children"].append(sub)
+        names = [c["name"] for c in root["children"]]
+        ws = [rng.random() for _ in names]
+        tot = sum(ws) / 0.9
+        root["algos"] = [sched_spec(rng, dates), {"a": "WeighSpecified", "weights": {n: round(w / tot, 4) for n, w in zip(names, ws)}}, {"a": "Rebalance"}]
+    else:
+        root["algos"] = stack(tickers)
+    cfg = {"integer": rng.random() < 0.5, "comm": commod.gen(rng, feedmod.min_unit(fspec["prices"])) if rng.random() < 0.5 else None, "capital": capital, "fi": False, "obs_price": False, "obs_eod": False, "profile": "all_algos"}
+    return {"driver": "engine", "cfg": cfg, "tree": root, "feed": fspec, "extra": extra, "fired": fired}
